@@ -564,4 +564,78 @@ theorem readLoop_exc_src (k : ClientKind) (fl : Flusher) (expected : Nat) :
               · simp only [h5, Bool.false_eq_true, if_false] at h
                 exact ih _ _ _ _ h
 
+/-- what has been received after the first `n` reads of a script (starting from `acc`) -/
+def receivedAfter (k : ClientKind) (script : List Ev) (acc : Bytes) (n : Nat) : Bytes :=
+  acc ++ (((served k script acc).take n).map (·.1)).flatten
+
+theorem receivedAfter_cons (k : ClientKind) (ev : Ev) (rest : List Ev) (acc : Bytes) (n : Nat) :
+    receivedAfter k (ev :: rest) acc (n + 1) =
+      receivedAfter k rest (acc ++ (ev.read (k.bufLen - acc.length)).1) n := by
+  simp [receivedAfter, served]
+
+/-- sharper form of `readLoop_exc_src`: the exception was recognised on exactly what had been received at a read
+boundary (after 1..length reads) -/
+theorem readLoop_exc_src_at (k : ClientKind) (fl : Flusher) (expected : Nat) :
+    ∀ (script : List Ev) (acc : Bytes) (log : List HookEv) (e : PErr) (log' : List HookEv),
+      readLoop k fl expected script acc log = (.err (.exc e), log') →
+        ∃ n, n ≤ script.length ∧ asProtocolError k (receivedAfter k script acc n) = some e := by
+  intro script
+  induction script with
+  | nil => intro acc log e log' h; simp [readLoop] at h
+  | cons ev rest ih =>
+    intro acc log e log' h
+    unfold readLoop at h
+    generalize hr : ev.read (k.bufLen - acc.length) = r at h
+    obtain ⟨chunk, tag, cancelled⟩ := r
+    simp only [] at h
+    have hrec : ∀ n, receivedAfter k (ev :: rest) acc (n + 1) = receivedAfter k rest (acc ++ chunk) n := by
+      intro n; rw [receivedAfter_cons, hr]
+    have wf : ∀ (o : LoopOut), withFlush k fl o = .err (.exc e) → o = .err (.exc e) := by
+      intro o ho; unfold withFlush at ho; split_ifs at ho
+      · simp at ho
+      · exact ho
+    by_cases h1 : tag = "io"
+    · simp only [h1, if_true] at h
+      have := wf _ (congrArg Prod.fst h); simp at this
+    · simp only [h1, if_false] at h
+      by_cases h2 : (acc ++ chunk).length > k.maxLen
+      · simp only [h2, if_true] at h
+        have := wf _ (congrArg Prod.fst h); simp at this
+      · simp only [h2, if_false] at h
+        cases hp : asProtocolError k (acc ++ chunk) with
+        | some x =>
+          simp only [hp] at h
+          have := wf _ (congrArg Prod.fst h)
+          injection this with this; injection this with this
+          refine ⟨1, by simp, ?_⟩
+          rw [hrec 0]
+          simp only [receivedAfter, List.take_zero, List.map_nil, List.flatten_nil, List.append_nil]
+          rw [hp, this]
+        | none =>
+          simp only [hp] at h
+          by_cases h3 : (acc ++ chunk).length ≥ expected
+          · simp only [h3, if_true] at h
+            have := wf _ (congrArg Prod.fst h)
+            split_ifs at this <;> simp at this
+          · simp only [h3, if_false] at h
+            by_cases h4 : tag = "eof" ∧ k ≠ .serial
+            · rw [if_pos h4] at h
+              have hh := congrArg Prod.fst h
+              simp only [] at hh
+              split_ifs at hh <;> simp at hh
+            · rw [if_neg h4] at h
+              by_cases h5 : cancelled = true
+              · simp [h5] at h
+              · simp only [h5, Bool.false_eq_true, if_false] at h
+                obtain ⟨n, hn, hx⟩ := ih _ _ _ _ h
+                exact ⟨n + 1, by simp; omega, by rw [hrec n]; exact hx⟩
+
+/-- a frame handed to the parser is exactly what had been received at a read boundary -/
+theorem readLoop_frame_at (k : ClientKind) (fl : Flusher) (expected : Nat) (script : List Ev) (acc : Bytes)
+    (log : List HookEv) (bs : Bytes) (log' : List HookEv)
+    (h : readLoop k fl expected script acc log = (.frame bs, log')) :
+    ∃ n, n ≤ script.length ∧ bs = receivedAfter k script acc n := by
+  obtain ⟨n, hn, _, hfr⟩ := readLoop_log k fl expected script acc log
+  exact ⟨n, hn, hfr bs (by rw [h])⟩
+
 end Modbus.Lemmas
